@@ -75,6 +75,9 @@ theorem skeleton_cache_runTask : Gen.Skeleton.cache_runTask = Conc.EventsSkeleto
 theorem skeleton_cache_notifyDeletion : Gen.Skeleton.cache_notifyDeletion = Conc.EventsSkeleton.cache_notifyDeletion := by decide
 theorem skeleton_cache_notifyAtomicDeletion : Gen.Skeleton.cache_notifyAtomicDeletion = Conc.EventsSkeleton.cache_notifyAtomicDeletion := by decide
 theorem skeleton_cache_makeRetired : Gen.Skeleton.cache_makeRetired = Conc.EventsSkeleton.cache_makeRetired := by decide
+theorem skeleton_cache_set : Gen.Skeleton.cache_set = Conc.EventsSkeleton.cache_set := by decide
+theorem skeleton_cache_Invalidate : Gen.Skeleton.cache_Invalidate = Conc.EventsSkeleton.cache_Invalidate := by decide
+theorem skeleton_cache_doCompute : Gen.Skeleton.cache_doCompute = Conc.EventsSkeleton.cache_doCompute := by decide
 theorem skeleton_cache_makeDead : Gen.Skeleton.cache_makeDead = Conc.EventsSkeleton.cache_makeDead := by decide
 
 
